@@ -349,7 +349,9 @@ pub fn cases(_tier: &str, _seed: u64) -> Vec<Case> {
     {
         use simple_dns::rdata::{RData, A};
         let mut k = 0u32;
-        for counts in [[1usize, 0, 0, 0], [0, 1, 0, 0], [0, 0, 1, 0], [0, 0, 0, 1], [2, 3, 4, 5], [0, 300, 0, 2], [256, 257, 1, 255], [3, 0, 0, 0]] {
+        for counts in [[1usize, 0, 0, 0], [0, 1, 0, 0], [0, 0, 1, 0], [0, 0, 0, 1], [2, 3, 4, 5], [0, 300, 0, 2], [256, 257, 1, 255], [3, 0, 0, 0],
+            // each count alone above 255, and all four different in both octets: a high octet taken from another count shows
+            [256, 0, 0, 0], [0, 256, 0, 0], [0, 0, 256, 0], [0, 0, 0, 256], [1, 2, 300, 3], [3, 1, 2, 300], [258, 515, 772, 1029]] {
             for opc in [OPCODE::StandardQuery, OPCODE::InverseQuery, OPCODE::ServerStatusRequest, OPCODE::Notify, OPCODE::Update] {
                 for rc in [RCODE::NoError, RCODE::FormatError, RCODE::Refused, RCODE::NOTZONE, RCODE::Reserved] {
                     k += 1;
